@@ -363,6 +363,31 @@ pub fn backup(
     backup_rt(Rt::Current, archive, hook, source, opts, exclude)
 }
 
+/// Two backups through ONE opened `Archive` value, as a long-running program would make
+/// them; `between` runs after the first (e.g. to damage the archive directory). The report
+/// is that of the whole sequence; the stats are the second backup's.
+pub fn two_backups_one_handle(
+    archive: &Path,
+    source: &Path,
+    opts: Opts,
+    between: Box<dyn FnOnce()>,
+) -> OpReport<BackupStats> {
+    run_op_rt(Rt::Current, move |m| async move {
+        let a = Archive::open(transport(archive, &None)).await?;
+        let options = || BackupOptions {
+            exclude: Exclude::nothing(),
+            max_entries_per_hunk: opts.hunk,
+            max_block_size: opts.block,
+            small_file_cap: opts.cap,
+            change_callback: None,
+            owner: true,
+        };
+        conserve::backup(&a, source, &options(), m.clone()).await?;
+        between();
+        conserve::backup(&a, source, &options(), m).await
+    })
+}
+
 /// A backup counts as "reported complete success" iff Ok, no monitor errors, stats.errors==0.
 pub fn backup_reported_error(r: &OpReport<BackupOut>) -> bool {
     r.reported_error() || r.result.as_ref().map(|o| o.stats.errors > 0).unwrap_or(true)
